@@ -50,7 +50,9 @@ func (node *tagIncludeNode) Execute(ctx *ExecutionContext, writer TemplateWriter
 		includedTpl, err2 := ctx.template.set.FromFile(includedFilename)
 		if err2 != nil {
 			// if this is ReadFile error, and "if_exists" flag is enabled
-			if node.ifExists && err2.(*Error).Sender == "fromfile" {
+			// if_exists only covers the included template itself, not the
+			// templates it refers to in turn
+			if node.ifExists && err2.(*Error).Sender == "fromfile" && err2.(*Error).Filename == includedFilename {
 				return nil
 			}
 			return err2.(*Error)
@@ -95,7 +97,9 @@ func tagIncludeParser(doc *Parser, start *Token, arguments *Parser) (INodeTag, *
 		includedTpl, err := doc.template.set.fromFileNested(doc.template, includedFilename)
 		if err != nil {
 			// if this is ReadFile error, and "if_exists" token presents we should create and empty node
-			if err.(*Error).Sender == "fromfile" && ifExists {
+			// if_exists only covers the included template itself, not the
+			// templates it refers to in turn
+			if err.(*Error).Sender == "fromfile" && err.(*Error).Filename == includedFilename && ifExists {
 				return &tagIncludeEmptyNode{}, nil
 			}
 			return nil, err.(*Error).updateFromTokenIfNeeded(doc.template, filenameToken)
